@@ -497,6 +497,23 @@ def run(rep, tier):
             scaneval.clause(fx, rep, 'quick')       # both skippers agree with one reference on every enumerated text
         except AnalysisBroken as ex:
             rep.broken.append(str(ex))
+    # the string quoter is per back end too (16- / 32-byte blocks, its own page guard for the direct tail read): both kernels
+    # agree with one reference encoding on every enumerated string and placement, hence with each other, and neither reads
+    # outside the mapped pages in the production configurations (shared with C09; the sanitizer branch is C09's K2 / K9)
+    from . import c09
+    from .. import quoteeval
+    for fx in (f1, f3):
+        try:
+            c09.clause_de(fx, rep, False)
+        except AnalysisBroken as ex:
+            rep.broken.append(str(ex))
+        try:
+            quoteeval.clause(fx, rep, tier)
+        except AnalysisBroken as ex:
+            rep.broken.append(str(ex))
+    for r_ in ('E3.bounce-copy', 'E3.page-guard', 'E3.tail-range', 'E5.tail-mask'):
+        rep.corroborate(r_, 'E5.quote-eval')
+    rep.corroborate_floor('C09.d:', 'E5.quote-eval')
     rep.trust('clang 14 front end', 'Intel semantics of the SSE compare / movemask intrinsics', 'simd wrapper contracts (== and unsigned <= followed by to_bitmask)')
     rep.assumptions += [
         'decides structural parity of the three x86 configurations; in the thorough tier every other property re-runs its rules on K3 (static SSE) and K4 (dynamic dispatch)',
